@@ -35,7 +35,8 @@ TRUSTED_BASE = [
 ]
 ASSUMPTIONS = [
     'inputs are Python str without lone surrogates (Lean Char cannot hold them); bytes / None arguments are outside the property',
-    'message constructors are exercised without a body (signature=None); sender is not in the property\'s list',
+    'the non-name constructor arguments (signature, body, expectReply, autoStart, sender) take valid values only; '
+    'sender is not in the property\'s list',
 ]
 RULE = ('validators-exhaustive: every string up to length 4 (quick) / 6 (thorough) over one representative per '
         'character class (letter, digit, underscore, dot, hyphen, colon, slash, non-ASCII, space); random: mutated '
@@ -105,12 +106,21 @@ def nontrivial(s):
 
 
 # ------------------------------------------------------------------ observation of the real code
+def canon_exc(e):
+    """'MarshallingError' for txdbus.error.MarshallingError AND its subclasses (a subclass is still "a
+    marshalling error"); the class name for anything else."""
+    from txdbus import error
+    if isinstance(e, error.MarshallingError):
+        return 'MarshallingError'
+    return type(e).__name__
+
+
 def observe(marshal, v, s):
     try:
         getattr(marshal, FUNC[v])(s)
         return 'accept'
-    except BaseException as e:          # the class name is the observation
-        return type(e).__name__
+    except BaseException as e:
+        return canon_exc(e)
 
 
 def enc(s):
@@ -159,9 +169,9 @@ def accept_key(v, s):
     return k + '-accepts-nongrammar'
 
 
-def judge_string(ctx, marshal, stream, s, mline):
-    """One string against the five validators: S3 and S4."""
-    impl = {v: observe(marshal, v, s) for v in VALIDATORS}
+def judge_string(ctx, marshal, stream, s, mline, order=VALIDATORS):
+    """One string against the five validators (called in `order`): S3 and S4."""
+    impl = {v: observe(marshal, v, s) for v in order}
     gram = {v: G[v](s) for v in VALIDATORS}
     ctx.impl_trace(5)
     if mline is not None:
@@ -202,9 +212,11 @@ def judge_string(ctx, marshal, stream, s, mline):
 def run_strings(ctx, marshal, stream, strings):
     strings = list(strings)
     out = ctx.model(['v ' + enc(s) for s in strings])
-    n_acc = 0
+    again = []
     for i, s in enumerate(strings):
-        impl, gram = judge_string(ctx, marshal, stream, s, out[i] if out is not None else None)
+        order = list(VALIDATORS)
+        ctx.rng.shuffle(order)              # the order in which the five validators see a string varies
+        impl, gram = judge_string(ctx, marshal, stream, s, out[i] if out is not None else None, order)
         nt = nontrivial(s)
         ctx.case(stream, sample=s if (nt or i < 3) else None, nontrivial=nt)
         if not nt:
@@ -212,8 +224,14 @@ def run_strings(ctx, marshal, stream, strings):
         ctx.stat('%s:len=%s' % (stream, len(s) if len(s) <= 8 else ('9-254' if len(s) < 255 else ('255' if len(s) == 255 else '256+'))))
         acc = [v for v in VALIDATORS if impl[v] == 'accept']
         ctx.stat('%s:accepted-by=%s' % (stream, '+'.join(acc) if acc else 'none'))
+        if acc and len(again) < 20000:
+            again.append((i, s, order))
+    # second pass over the strings somebody accepted, validators in the opposite order: an answer that
+    # depends on what was validated before (a memo shared between validators) is wrong on one of the two calls
+    for i, s, order in again:
+        judge_string(ctx, marshal, stream, s, out[i] if out is not None else None, order[::-1])
+    ctx.stat(stream + ':second-pass', len(again))
     ctx.case('grammar-lean-vs-python', n=len(strings) if out is not None else 0)
-    return n_acc
 
 
 # ------------------------------------------------------------------ generators
@@ -332,6 +350,20 @@ def boundary_strings(rng):
     return out
 
 
+def deep_wide_strings():
+    """many elements: long paths, names with 10-100 short elements and one defect near the end"""
+    out = []
+    for k in (10, 500, 5000):
+        p = '/a' * k
+        out += [p, p + '/', p + '//b', p + '/b c', p + '/.', p[1:], p + '/1']
+    for k in (4, 5, 10, 30, 100):
+        base = '.'.join(['a'] * k)
+        out += [base, base + '.1e', base + '.e1', base + '.', base + '..a', base + '.-', base + '.-1', base + ':a',
+                ':' + base, ':' + base + '.1e', ':' + base + '.', ':' + base + '..1', ':1.' + base + ':', '1' + base,
+                base + '.a b', base + '._']
+    return out
+
+
 def digit_strings():
     digs = ['\u0663', '\u00b2', '\u2460', '\uff15', '\u0967', '\U0001d7d8', '1']
     out = []
@@ -342,7 +374,8 @@ def digit_strings():
     return out
 
 
-CURATED = ['a.0', 'a.0b', 'a.9', 'a.b.0c', ':0.9', ':0.0', 'a0.b9', '/0', '0', '9a', 'a-0.b', 'a.-0',
+CURATED = ['a.b.c.d.1e', 'a.b.c.d.e.', ':a.b.c.d..e', 'a.b.c.d:e', '/a/b/c/d/', '/a/b/c/d//e',
+           'a.0', 'a.0b', 'a.9', 'a.b.0c', ':0.9', ':0.0', 'a0.b9', '/0', '0', '9a', 'a-0.b', 'a.-0',
            '', '/', '//', '/a', '/a/', '/a//b', 'a', 'a/b', '/a/b', '/a.b', '/a-b', '/_', '/1', '/1/2', '/a b',
            'a.b', 'a.', 'a.b.', '.a', '.a.b', 'a..b', 'a.1', 'a.1b', '1.a', 'a1.b1', '_._', 'a', 'a.b.c', 'a-b.c', 'a.b-c',
            '-a.b', 'a.-b', '-.a', '-.-', ':1.2', ':1.', ':.a', ':.1', ':', ':a', ':a.b', '::a.b', 'a:b.c', ':a:b.c', ':1.2:3',
@@ -369,22 +402,60 @@ OPTIONAL = {('MethodCallMessage', 'interface'), ('MethodCallMessage', 'destinati
             ('MethodReturnMessage', 'destination'), ('ErrorMessage', 'destination'), ('SignalMessage', 'destination')}
 
 
-def construct(message, cls, args):
-    """returns ('accept', msg) or (exception class name, None)"""
+NO_EXTRA = {'signature': None, 'body': None, 'expectReply': True, 'autoStart': True, 'sender': None}
+EXTRAS = [
+    {},
+    {'signature': 's', 'body': ['x']},
+    {'signature': 'ii', 'body': [1, 2]},
+    {'signature': 'as', 'body': [['a', 'b']]},
+    {'expectReply': False},
+    {'autoStart': False},
+    {'expectReply': False, 'autoStart': False, 'signature': 's', 'body': ['']},
+    {'sender': ':1.5'},
+    {'sender': 'not a bus name', 'signature': 'o', 'body': ['/x']},
+]
+
+
+def construct(message, cls, args, extra=None):
+    """returns ('accept', msg) or (canonical exception name, None).  `extra`: the non-name arguments
+    (always valid values: the outcome must depend on the names only)."""
+    x = dict(NO_EXTRA)
+    x.update(extra or {})
     try:
         if cls == 'MethodCallMessage':
             m = message.MethodCallMessage(args['path'], args['member'], interface=args['interface'],
-                                          destination=args['destination'])
+                                          destination=args['destination'], signature=x['signature'], body=x['body'],
+                                          expectReply=x['expectReply'], autoStart=x['autoStart'])
         elif cls == 'MethodReturnMessage':
-            m = message.MethodReturnMessage(1, destination=args['destination'])
+            m = message.MethodReturnMessage(1, body=x['body'], destination=args['destination'],
+                                            signature=x['signature'])
         elif cls == 'ErrorMessage':
-            m = message.ErrorMessage(args['error_name'], 1, destination=args['destination'])
+            m = message.ErrorMessage(args['error_name'], 1, destination=args['destination'],
+                                     signature=x['signature'], body=x['body'], sender=x['sender'])
         else:
             m = message.SignalMessage(args['path'], args['member'], args['interface'],
-                                      destination=args['destination'])
+                                      destination=args['destination'], signature=x['signature'], body=x['body'])
         return 'accept', m
     except BaseException as e:
-        return type(e).__name__, None
+        return canon_exc(e), None
+
+
+HCODE = {1: 'path', 2: 'interface', 3: 'member', 4: 'error_name', 6: 'destination'}      # 7 = sender: not in the property
+
+
+def carried_names(message, m):
+    """The names a constructed message CARRIES: header fields of the marshalled message (re-parsed from
+    rawMessage; the header list built by _marshal as a fallback).  -> list of (field, value)"""
+    try:
+        p = message.parseMessage(m.rawMessage, [])
+        return [(f, getattr(p, f)) for f in HCODE.values() if isinstance(getattr(p, f, None), str)]
+    except BaseException:
+        pass
+    out = []
+    for h in getattr(m, 'headers', None) or []:
+        if h[0] in HCODE and isinstance(h[1], str):
+            out.append((HCODE[h[0]], str(h[1])))
+    return out
 
 
 def msg_line(cls, a):
@@ -397,26 +468,26 @@ def msg_line(cls, a):
     return 'sig %s %s %s %s' % (enc(a['path']), enc(a['member']), enc(a['interface']), enc_opt(a['destination']))
 
 
-def judge_message(ctx, marshal, message, cls, args, mline):
+def judge_message(ctx, marshal, message, cls, args, mline, extra=None):
     stream = 'message-constructors'
-    r, m = construct(message, cls, args)
+    r, m = construct(message, cls, args, extra)
     ctx.impl_trace()
     inp = {'kind': 'message', 'cls': cls, 'args': args}
+    if extra:
+        inp['extra'] = extra
     if mline is not None:
         tok = mline.split()
         if len(tok) != 2 or tok[0] != r or tok[1] != r:
             ctx.disagree(stream, inp, mline, r)
     if r == 'accept':
-        raw = getattr(m, 'rawMessage', None)
-        for f in FIELDS[cls]:
-            val = args[f]
-            if val is None:
-                continue
+        # S4, from the property text: a message that exists must not CARRY a name outside the grammar.
+        # Judged on what the marshalled message holds, not on the argument list: a constructor that drops
+        # or normalises an argument (e.g. '' -> None, field not emitted) does not violate the statement.
+        carried = carried_names(message, m)
+        for f, val in carried:
             kind = FIELD_KIND[f]
             if G[kind](val):
                 continue
-            # the message exists and carries `val` (it is in the marshalled header)
-            carried = isinstance(raw, bytes) and val.encode('utf-8', 'surrogatepass') in raw
             vres = observe(marshal, kind, val)
             if val == '' and f in ('interface', 'destination'):
                 key = 'empty-name-constructible'
@@ -424,8 +495,12 @@ def judge_message(ctx, marshal, message, cls, args, mline):
                 key = accept_key(kind, val)          # the validator's own defect, seen through the constructor
             else:
                 key = 'message-%s-not-validated' % f
-            ctx.violation(key, '%s constructed with %s=%r, which the DBus grammar rejects (validator: %s; in raw message: %s)'
-                          % (cls, f, val, vres, carried), inp=inp, observed='constructed', expected='MarshallingError')
+            ctx.violation(key, '%s constructed and carries %s=%r, which the DBus grammar rejects (validator alone: %s)'
+                          % (cls, f, val, vres), inp=inp, observed='constructed', expected='MarshallingError')
+        have = dict(carried)
+        for f in FIELDS[cls]:
+            if args.get(f) is not None and have.get(f) != args[f]:
+                ctx.stat('message:argument-not-carried:%s' % f)
     ctx.stat('message:%s:%s' % (cls, r))
     return r
 
@@ -438,9 +513,18 @@ def message_cases(ctx, pool):
             for f in fields:
                 a = dict(DEFAULTS[cls])
                 a[f] = s
-                cases.append((cls, a))
+                cases.append((cls, a, None))
     # several fields at once (order of checks, first failure wins)
     rng = ctx.rng
+    # the non-name arguments vary (valid values only): validation must not depend on them
+    probes = [s for s in CURATED if len(s) <= 8] + ['/a' * 40, '/a' * 40 + '/', '.'.join(['a'] * 12) + '.1e']
+    for x in EXTRAS[1:]:
+        for s in probes:
+            for cls, fields in FIELDS.items():
+                for f in fields:
+                    a = dict(DEFAULTS[cls])
+                    a[f] = s
+                    cases.append((cls, a, x))
     n = ctx.scale(quick=1500, thorough=30000)
     small = [s for s in pool if len(s) <= 6]
     for _ in range(n):
@@ -456,16 +540,29 @@ def message_cases(ctx, pool):
                 a[f] = mutate(rng, gen_valid(rng, FIELD_KIND[f]))
             else:
                 a[f] = rng.choice(small)
-        cases.append((cls, a))
+        cases.append((cls, a, rng.choice(EXTRAS) or None))
     return cases
 
 
 def run_messages(ctx, marshal, message, cases):
-    out = ctx.model([msg_line(cls, a) for cls, a in cases])
-    for i, (cls, a) in enumerate(cases):
-        judge_message(ctx, marshal, message, cls, a, out[i] if out is not None else None)
+    out = ctx.model([msg_line(cls, a) for cls, a, x in cases])
+    for i, (cls, a, x) in enumerate(cases):
+        judge_message(ctx, marshal, message, cls, a, out[i] if out is not None else None, x)
         nt = all(v is None or nontrivial(v) for v in a.values())
-        ctx.case('message-constructors', sample={'cls': cls, 'args': a} if nt else None, nontrivial=nt)
+        ctx.case('message-constructors', sample={'cls': cls, 'args': a, 'extra': x} if nt else None, nontrivial=nt)
+        ctx.stat('message:extra=%s' % ('+'.join(sorted(x)) if x else 'defaults'))
+
+
+def probe_none_path(ctx, message):
+    """Observed, not judged (C03's required-field matter, no name is carried): path=None."""
+    for cls, mk in (('MethodCallMessage', lambda: message.MethodCallMessage(None, 'm')),
+                    ('SignalMessage', lambda: message.SignalMessage(None, 'm', 'a.b'))):
+        try:
+            m = mk()
+            r = 'constructs, header codes %s' % sorted(h[0] for h in m.headers)
+        except BaseException as e:
+            r = canon_exc(e)
+        ctx.note('observed-not-flagged: %s(path=None) -> %s' % (cls, r))
 
 
 # ------------------------------------------------------------------ entry points
@@ -486,7 +583,7 @@ def run(ctx):
     for name, case in ctx.corpus():
         inp = case.get('input', case)
         if inp.get('kind') == 'message':
-            cmsg.append((inp['cls'], inp['args']))
+            cmsg.append((inp['cls'], inp['args'], inp.get('extra')))
         else:
             cstr.append(inp['s'])
     if cstr:
@@ -495,7 +592,8 @@ def run(ctx):
         run_messages(ctx, marshal, message, cmsg)
 
     # curated corner cases, boundary lengths, non-ASCII digits
-    run_strings(ctx, marshal, 'validators-boundary', _dedup(CURATED + digit_strings() + boundary_strings(ctx.rng)))
+    run_strings(ctx, marshal, 'validators-boundary',
+                _dedup(CURATED + digit_strings() + deep_wide_strings() + boundary_strings(ctx.rng)))
 
     # bounded-exhaustive over the nine character classes
     if ctx.tier == 'thorough':
@@ -515,6 +613,7 @@ def run(ctx):
     pool = _dedup(list(exhaustive(mlen)) + CURATED + digit_strings()
                   + [with_length(ctx.rng, v, t) for v in VALIDATORS for t in (255, 256)])
     run_messages(ctx, marshal, message, message_cases(ctx, pool))
+    probe_none_path(ctx, message)
 
 
 def replay(ctx, data):
@@ -523,7 +622,7 @@ def replay(ctx, data):
     if inp.get('kind') == 'message':
         line = msg_line(inp['cls'], inp['args'])
         out = ctx.model([line])
-        judge_message(ctx, marshal, message, inp['cls'], inp['args'], out[0] if out else None)
+        judge_message(ctx, marshal, message, inp['cls'], inp['args'], out[0] if out else None, inp.get('extra'))
     else:
         s = inp['s']
         out = ctx.model(['v ' + enc(s)])
